@@ -3,7 +3,7 @@ use std::cell::{Cell, RefCell};
 use std::io::{self, Write};
 use std::panic::UnwindSafe;
 use std::process::abort;
-use std::sync::atomic::{AtomicBool, Ordering};
+use std::sync::Once;
 
 /// Describes the fallback behavior when
 /// a panic occurs outside of `catch_panic`.
@@ -28,7 +28,7 @@ thread_local! {
     // Status of the panic catcher
     static PANIC_CATCHER_ENABLED: Cell<bool> = const { Cell::new(false) };
 }
-static PANIC_CATCHER_HOOK_SET: AtomicBool = AtomicBool::new(false);
+static PANIC_CATCHER_HOOK_ONCE: Once = Once::new();
 
 #[inline]
 fn panic_catcher_start_catching() -> bool {
@@ -126,29 +126,31 @@ fn record_backtrace(info: &std::panic::PanicHookInfo<'_>, bt: &mut String) {
 
 /// Registers panic catcher panic hook.
 pub fn panic_catcher_set_hook() {
-    if PANIC_CATCHER_HOOK_SET.load(Ordering::SeqCst) {
-        return;
-    }
-    let next = std::panic::take_hook();
-    std::panic::set_hook(Box::new(move |info| {
-        if PANIC_CATCHER_LEVEL.with(|enabled| enabled.get() > 0) {
-            PANIC_CATCHER_BACKTRACE.with(|bt| {
-                let mut bt = bt.borrow_mut();
-                record_backtrace(info, &mut bt);
-            });
-            return;
-        }
-        match PANIC_CATCHER_FALLBACK_MODE.with(|b| b.get()) {
-            PanicCatcherFallbackMode::Continue => next(info),
-            PanicCatcherFallbackMode::Abort => {
-                let mut bt = String::new();
-                record_backtrace(info, &mut bt);
-                let _ = io::stderr().write_all(bt.as_bytes());
-                abort();
+    // The previous hook is taken and wrapped exactly once, and concurrent callers wait
+    // until that is done: a racing second installation used to be able to wrap (and
+    // thereby lose) the hook that was in place before, and while it held the taken
+    // hook, panics inside `catch_panic` on other threads were not recorded.
+    PANIC_CATCHER_HOOK_ONCE.call_once(|| {
+        let next = std::panic::take_hook();
+        std::panic::set_hook(Box::new(move |info| {
+            if PANIC_CATCHER_LEVEL.with(|enabled| enabled.get() > 0) {
+                PANIC_CATCHER_BACKTRACE.with(|bt| {
+                    let mut bt = bt.borrow_mut();
+                    record_backtrace(info, &mut bt);
+                });
+                return;
             }
-        }
-    }));
-    PANIC_CATCHER_HOOK_SET.store(true, Ordering::SeqCst);
+            match PANIC_CATCHER_FALLBACK_MODE.with(|b| b.get()) {
+                PanicCatcherFallbackMode::Continue => next(info),
+                PanicCatcherFallbackMode::Abort => {
+                    let mut bt = String::new();
+                    record_backtrace(info, &mut bt);
+                    let _ = io::stderr().write_all(bt.as_bytes());
+                    abort();
+                }
+            }
+        }));
+    });
 }
 
 /// Enables the panic catcher.
